@@ -343,6 +343,14 @@ fn family(rng: &mut Rng, corpus: &Corpus, deep_levels: (usize, usize), out: &mut
                 3 => json!({"cat": [{"var": "b"}, {"var": "a.b"}]}),
                 _ => json!({"if": [{"var": "x"}, {"var": "a"}, {"var": "b"}]}),
             };
+            // sometimes the rule-shaped value reads the very place it is stored in
+            let inner = match rng.below(10) {
+                0 => json!({"all": [{"var": "list"}, true]}),
+                1 => json!({"some": [{"var": "list"}, false]}),
+                2 => json!({"var": ["nope", {"var": "k"}]}),
+                3 => json!({"none": [{"var": "list"}, {"var": "k"}]}),
+                _ => inner,
+            };
             let d = json!({"k": inner.clone(), "a": gen::atom(rng), "b": gen::atom(rng), "x": gen::atom(rng), "list": [inner.clone(), gen::atom(rng), inner], "c": {"k": gen::data(rng, 1)}});
             let dt = t(&d);
             for _ in 0..rng.range(1, 3) {
